@@ -157,6 +157,20 @@ example : replacer (CssVerif.Proto.cps "css/a.css") (CssVerif.Proto.cps "../img/
 example : urljoin (CssVerif.Proto.cps "http://h/base/main.css") (CssVerif.Proto.cps "img/x.png?v=2#f")
     = urljoin (CssVerif.Proto.cps "http://h/base/css/a.css") (CssVerif.Proto.cps "../img/x.png?v=2#f") := by decide
 
+/-! ### T19.2, strings [W2, partial]: the string functions of the model are the segment functions on joined paths.
+Not proved: the composition through `urlsplit`/`urlunsplit`/`posixpath.split`/`join` for arbitrary strings (those
+are tied to CPython by the correspondence only). -/
+
+/-- `'/'.join(parts).split('/') == parts` -/
+theorem split_join (cs : List Str) (h : cs ≠ []) (h0 : ∀ s ∈ cs, cSlash ∉ s) :
+    splitOn cSlash (joinWith cSlash cs) = cs := splitOn_joinWith cSlash cs h h0
+
+/-- `os.path.normpath('/'.join(segments))` = `'/'.join(normComps segments)` for a relative path ending in a name -/
+theorem normpath_of_segments (cs : List Str) (f : Str) (h0 : ∀ s ∈ cs ++ [f], cSlash ∉ s)
+    (h1 : (cs ++ [f]).head? ≠ some []) (hf : Normal f) :
+    normpath (joinWith cSlash (cs ++ [f])) = joinWith cSlash (normComps false (cs ++ [f])) :=
+  normpath_joinWith cs f h0 h1 hf
+
 /-! ### known findings of the re-basing, machine-checked on the model (each also fails on the implementation) -/
 section
 open CssVerif.Proto
